@@ -139,3 +139,29 @@ Definition model_C05 (fo : float_oracle) (braces : bool) (a : chain) (m : option
   let s := outcome_of (read_cgsmiles fo (print braces a)) in
   let l := outcome_of (read_cgsmiles fo (print braces (expand a))) in
   holds_C05 a s l (match m with Some x => x | None => ident_map s end).
+
+(** isomorphism invariants used by the refutation witnesses of C05 (a renumbering cannot change them) *)
+Definition count_nodes_named (nm : pystr) (o : outcome) : nat :=
+  match o with
+  | inl ob => length (filter (fun ka => match aget (S "fragname") (snd ka) with Some (VStr s) => str_eqb s nm | _ => false end) (fst ob))
+  | inr _ => 0%nat
+  end.
+Definition count_edges_order (z : Z) (o : outcome) : nat :=
+  match o with
+  | inl ob => length (filter (fun e => match aget (S "order") (snd e) with Some (VInt x) => Z.eqb x z | _ => false end) (snd ob))
+  | inr _ => 0%nat
+  end.
+Definition count_nodes (o : outcome) : nat := match o with inl ob => length (fst ob) | inr _ => 0%nat end.
+Definition degree_in (o : outcome) (k : Z) : nat :=
+  match o with
+  | inl ob => length (filter (fun e => Z.eqb (fst (fst e)) k || Z.eqb (snd (fst e)) k) (snd ob))
+  | inr _ => 0%nat
+  end.
+(** number of nodes of each degree 0..5 *)
+Definition degree_profile (o : outcome) : list nat :=
+  match o with
+  | inl ob => map (fun d => length (filter (fun ka => Nat.eqb (degree_in o (fst ka)) d) (fst ob))) (seq 0 6)
+  | inr _ => []
+  end.
+Definition short_of (fo : float_oracle) (braces : bool) (a : chain) : outcome := outcome_of (read_cgsmiles fo (print braces a)).
+Definition long_of (fo : float_oracle) (braces : bool) (a : chain) : outcome := outcome_of (read_cgsmiles fo (print braces (expand a))).
